@@ -26,10 +26,10 @@ def conformance(tier, seed):
 
 
 def generators(tier, seed):
-    return [dict(module="MC_C20g", cfg="MC_C20g", workers=2), dict(module="MC_C20", cfg="MC_C20_q" if tier == "quick" else "MC_C20_t", workers=4)]
+    return [dict(module="MC_C20g", cfg="MC_C20g", workers=2), dict(module="MC_C20h", cfg="MC_C20h", workers=2), dict(module="MC_C20", cfg="MC_C20_q" if tier == "quick" else "MC_C20_t", workers=4)]
 
 MANIFEST = dict(
     design_ref="DESIGN.md §5 C20",
-    text="TLC enumerates ignore files (pattern forms x lines), tools, root spellings and activation modes; each is one run; Judge_C20 requires the rows to be exactly the entries that the tool's rules do not ignore: git's verdict is recorded from `git check-ignore`, Mercurial's and Docker's rules are the TLA+ reference matchers of Ignore.tla (path-aware globs, unrooted vs rooted patterns, last-match-wins negation). The Mech model IgnoreMech (line -> regular-expression pieces, hg / docker folds) is checked equivalent to Ignore.tla by MC_IgnoreMech and bound to the binary by Judge_IgnoreMech (DRIFT); MC_C20g adds several repositories below a root outside of them.",
+    text="TLC enumerates ignore files (pattern forms x lines), tools, root spellings and activation modes; each is one run; Judge_C20 requires the rows to be exactly the entries that the tool's rules do not ignore: git's verdict is recorded from `git check-ignore`, Mercurial's and Docker's rules are the TLA+ reference matchers of Ignore.tla (path-aware globs, unrooted vs rooted patterns, last-match-wins negation). The Mech model IgnoreMech (line -> regular-expression pieces, hg / docker folds) is checked equivalent to Ignore.tla by MC_IgnoreMech and bound to the binary by Judge_IgnoreMech (DRIFT); MC_C20g adds several repositories below a root outside of them; MC_C20h one query over two roots that each hold their own .hgignore / .dockerignore (every entry judged by the rules of its own root).",
     note="Trusted: TLC, Ignore/Regex, git check-ignore. Pattern subset of the quantifier only; re-inclusion below an excluded directory, character classes and subinclude are not generated.",
     technique="TLC enumeration + replay + TLA+ judge (reference matchers; git as recorded oracle)")
